@@ -168,6 +168,8 @@ def build(world):
             obj = Source(name, gen, world.val(d.get('cycle', 0)), d.get('parts', 2))
         elif k == 'handler':
             obj = PartHandler(name, up, world.val(d.get('cycle', 0)))
+            if d.get('recv_addvalue') is not None:
+                obj.add_receive_part_callback(lambda h, part, a=world.val(d['recv_addvalue']): [p.add_value('rework', a) for p in leaves(part)])
         elif k == 'proc':
             res = d.get('res')
             wp = ('durs' in d or 'needs' in d or 'costs' in d)
@@ -184,12 +186,18 @@ def build(world):
             obj = Buffer(name, up, world.val(d.get('delay', 0)), d.get('cap'))
         elif k == 'sink':
             obj = Sink(name, up, world.val(d.get('cycle', 0)), collect_parts=True)
+            if d.get('recv_addvalue') is not None:
+                obj.add_receive_part_callback(lambda h, part, a=world.val(d['recv_addvalue']): [p.add_value('write-down', a) for p in leaves(part)])
         elif k == 'gate':
             pred = d['pred']
             if pred == 'even':
                 fn = lambda gate, part: part.idx[0] % 2 == 0
             elif pred == 'odd':
                 fn = lambda gate, part: part.idx[0] % 2 == 1
+            elif pred == 'value_ge1':
+                fn = lambda gate, part: part.value >= 1
+            elif pred == 'value_lt1':
+                fn = lambda gate, part: part.value < 1
             elif pred == 'all':
                 fn = lambda gate, part: True
             else:
@@ -217,6 +225,9 @@ def build(world):
         world.dev[name] = obj
         world.kind[name] = k
         world.order.append(name)
+    for d in spec['devices']:
+        if d.get('up_late'):
+            world.dev[d['name']].set_upstream([world.dev[u] for u in d['up_late']])
     world.groups = group_objs
     return system
 
@@ -368,7 +379,7 @@ def run_world(world, monitors):
 
 
 VALUE_KEYS = {'cycle', 'delay', 'value', 't', 'amount', 'capacity', 'dur', 'cost', 'needcap', 'interval', 'horizon',
-              'addvalue', 'finish_offset'}
+              'addvalue', 'finish_offset', 'recv_addvalue'}
 VALUE_CONTAINERS = {'pools', 'res', 'batches', 'horizons', 'durs', 'needs', 'costs'}   # 'durs' may be a dict (work orders) or a list (scheduler)
 
 
@@ -579,6 +590,8 @@ class BufferMon(Monitor):
         if self.w.probe_depth:
             return
         self.arrival[buf.name][id(part)] = self.w.now()
+        self.sequence = getattr(self, 'sequence', {})
+        self.sequence.setdefault(buf.name, []).append(part)
 
     def after_event(self, ev):
         w, ctx = self.w, self.ctx
@@ -597,6 +610,14 @@ class BufferMon(Monitor):
                 ctx.require([id(p) for p in prev[:k]] == [id(p) for p in gone], 'buffer released parts out of arrival order', d.name)
                 stay = [id(p) for p in prev[k:]]
                 ctx.require(now_ids[:len(stay)] == stay, 'buffer content reordered', d.name)
+                seq = getattr(self, 'sequence', {}).get(d.name, [])
+                for p in gone:          # departures in the order of arrival (as observed through the receive callback)
+                    ctx.require(seq and seq[0] is p, 'buffer released parts out of arrival order', d.name)
+                    seq.pop(0)
+                ctx.require(len(seq) == len(stored) and all(a is b for a, b in zip(seq, stored)),
+                            'stored_parts is not the not-yet-released parts in arrival order', d.name)
+                if len(seq) >= 2 and ctx.possible(self.arrival[d.name][id(seq[0])] == self.arrival[d.name][id(seq[1])]):
+                    ctx.goal('two_arrivals_same_instant')
                 now = w.now()
                 for p in gone:
                     arr = self.arrival[d.name].get(id(p))
@@ -1514,7 +1535,7 @@ class RoutingMon(Monitor):
 
     def _edges(self):
         w = self.w
-        up = {d['name']: d.get('up', []) for d in w.spec['devices']}
+        up = {d['name']: (d.get('up_late') or d.get('up', [])) for d in w.spec['devices']}
         groups = {g['name']: g['devices'] for g in w.spec.get('groups', [])}
         return up, groups
 
